@@ -84,7 +84,7 @@ InitLaxis ==
 Col(name, kind, vals, slen) == [name |-> name, kind |-> kind, vals |-> vals, slen |-> slen, alias |-> <<>>]
 Menu == <<
   Col(<<"a">>, "i", <<1, 2, 3>>, 0),
-  Col(<<"i", "d">>, "i", <<-20, 5, 100>>, 0),
+  Col(<<"i", "d">>, "i", <<-200, 5, 10>>, 0),
   Col(<<"l", "o", "n", "g">>, "i", <<0, 7, 12>>, 0),
   Col(<<"n">>, "i", <<123456, -1, 0>>, 0),
   Col(<<"c", "c", "c">>, "s", << <<"f", "i", "v", "e">>, <<"s", "e", "v", "e", "n">>, <<"n", "i", "n", "e">> >>, 5),
